@@ -77,7 +77,15 @@ PREDS = {
     "true": lambda v: True,
     "false": lambda v: False,
 }
-KEYS = {"none": None, "half": lambda v: v // 2, "const": lambda v: 0, "neg": lambda v: -v}
+KEYS = {
+    "none": None,
+    "half": lambda v: v // 2,
+    "const": lambda v: 0,
+    "neg": lambda v: -v,
+    # equal-but-not-identical keys: comparing keys by identity must show
+    "fresh_tuple": lambda v: (v // 2, "k"),
+    "fresh_str": lambda v: "k%d" % (v // 2),
+}
 BINOPS = {"add": operator.add, "mul": operator.mul, "sub": operator.sub, "max": max}
 
 
@@ -182,6 +190,10 @@ def makers(case: dict):  # noqa: ANN201
 
     if fn == "groupby":
         key = KEYS[p[0]]
+        if len(p) > 1 and p[1] == "fresh":
+            # elements equal by value but distinct objects (ints beyond the small-int cache)
+            xs = [10**6 + x * 7 for x in xs]
+
         if key is None:
             return (
                 lambda k: AI.groupby(_src(k, xs)),
@@ -311,6 +323,8 @@ def enumerate_cases(seqs: list[list[int]], short: list[list[int]], full: bool): 
 
         for key in KEYS:
             yield {"fn": "groupby", "xs": xs, "p": [key]}
+
+        yield {"fn": "groupby", "xs": xs, "p": ["none", "fresh"]}
 
         for op in ("sub", "add"):
             yield {"fn": "starmap", "xs": xs, "p": [op]}
